@@ -223,7 +223,16 @@ impl<'a> Encoder<'a> {
 				inner.extend_from_slice(&b);
 				write_varint_raw(&mut inner, zigzag(*scale as i64), 0);
 				self.long(inner.len() as i64, TokKind::LenPrefix);
-				self.raw(&inner, TokKind::DecimalInner);
+				// separate tokens for the inner length, the unscaled bytes and the scale, so that hostile numbers
+				// and refill boundaries can be aimed at each
+				let inner_len_bytes = inner.len() - b.len() - {
+					let mut t = vec![];
+					write_varint_raw(&mut t, zigzag(*scale as i64), 0);
+					t.len()
+				};
+				self.raw(&inner[..inner_len_bytes], TokKind::DecimalInner);
+				self.raw(&inner[inner_len_bytes..inner_len_bytes + b.len()], TokKind::Payload);
+				self.raw(&inner[inner_len_bytes + b.len()..], TokKind::DecimalInner);
 				Ok(())
 			}
 			(Ty::Duration { .. }, Val::Duration(d)) => {
